@@ -295,6 +295,8 @@ func documentedError(err error) bool {
 
 var c19Configs []*printer.Config
 
+var c19SeenWord = map[string]bool{}
+
 // c19Modes: quick = each mode flag alone and Assign combined with each other flag; thorough = all 32 combinations
 var c19Modes = []interp.ExpMode{0, interp.Arith, interp.Assign, interp.Literal, interp.Pattern, interp.Quote,
 	interp.Assign | interp.Arith, interp.Assign | interp.Literal, interp.Assign | interp.Pattern, interp.Assign | interp.Quote}
@@ -340,8 +342,18 @@ func c19Steps(src string, count func(string), violation func(c interface{}, deta
 			w.Count("evaluations", 1)
 		}
 		for _, wd := range words {
+			// a word (position-free) is expanded once per worker: Expand depends on the word's structure only
+			wdump := dumpAST(wd, false)
+			if c19SeenWord[wdump] {
+				continue
+			}
+			if len(c19SeenWord) > 2000000 {
+				c19SeenWord = map[string]bool{}
+			}
+			c19SeenWord[wdump] = true
+			w.Count("distinct_words_expanded", 1)
 			for _, m := range c19Modes {
-				what = fmt.Sprintf("Expand (mode %d) of %s", m, dumpAST(wd, false))
+				what = fmt.Sprintf("Expand (mode %d) of %s", m, wdump)
 				env := interp.NewExecEnv("sh", "p1", "p2")
 				_, e := env.Expand(wd, m)
 				w.Count("evaluations", 1)
@@ -442,11 +454,9 @@ func c19Replay(raw json.RawMessage) error {
 
 func c19Run(w *W) {
 	// Fprint configurations: quick = the full factorial of the options that select code paths, thorough = all 256
-	if w.thorough() {
-		c19Modes = nil
-		for m := interp.ExpMode(0); m < 32; m++ {
-			c19Modes = append(c19Modes, m)
-		}
+	c19Modes = nil
+	for m := interp.ExpMode(0); m < 32; m++ { // every combination of the five mode flags
+		c19Modes = append(c19Modes, m)
 	}
 	c19Configs = nil
 	for m := 0; m < 256; m++ {
@@ -609,7 +619,7 @@ func init() {
 		id:    "C19",
 		level: "model_checking",
 		procs: panicnilProcs,
-		rule: "every AST the parser returns for the C01 corpora and for the derivation sets D0–D2, DH, word menu in two layouts → Pos()/End() of every node, Fprint under 16 (quick) / 256 (thorough) Configs, Expand of every word of the AST under 10 (quick: each flag alone, Assign with each other flag) / all 32 combinations of the mode flags; " +
+		rule: "every AST the parser returns for the C01 corpora and for the derivation sets D0–D2, DH, word menu in two layouts → Pos()/End() of every node, Fprint under 16 (quick) / 256 (thorough) Configs, Expand of every distinct word (position-free) of the ASTs under all 32 combinations of the mode flags; " +
 			"all token strings ≤ 4 (quick) / 5 over a 20-token alphabet for Eval; all patterns ≤ 4 / 5 over {a * ? [ ] ! - \\ . : = ^} × 6 subjects × mode combinations for Match; all patterns ≤ 4 / 5 over {a b * ? [ ] / \\ .} for Glob; " +
 			"all 2^14 Option values; nesting depth 1–40 of 5 compound forms × 12 indentation styles; under GODEBUG=panicnil=0 and =1. non-trivial = Eval cases (the only entry point with its own goroutine)",
 		assume: []string{"oracle: no panic, no process death, errors of the documented types (parser.Error, ArithExprError, ParamExpError, NoMatch, *regexp/syntax.Error)",
